@@ -320,7 +320,8 @@ def big_diff(nhunks, codec, nlk, straddle):
     return data, ins, dels
 
 
-SCALE_HUNKS = [1, 9, 10, 11, 20, 75, 150, 300, 1200, 2500]
+SCALE_HUNKS = [1, 9, 10, 11, 20, 75, 150, 300, 1200, 2500, 10000]
+SCALE_HUNKS_T = SCALE_HUNKS + [40000]
 SCALE_RENDER = [(None, 'unix', False), (None, 'dos', False),
                 ('utf-8', 'unix', True), ('utf-8', 'dos', True),
                 ('utf-16', 'unix', True), ('utf-16-le', 'dos', True),
@@ -515,8 +516,9 @@ def plan(tier):
             units.append((si, combos[i:i + step]))
     # full product for the single-file tree: variant x render x kind x pre
     units.append(('single',))
-    for nh in SCALE_HUNKS:
-        units.append(('scale', nh))
+    for nh in (SCALE_HUNKS if tier == 'quick' else SCALE_HUNKS_T):
+        for ri in range(len(SCALE_RENDER)):
+            units.append(('scale', nh, ri))
     # histories: generate, edit, (edit,) generate vs fresh tree
     nops = len(hist_ops(2))
     for base in range(3):
@@ -574,7 +576,7 @@ def run_unit(unit, tier):
 
     if unit[0] == 'scale':
         nh = unit[1]
-        for ri in range(len(SCALE_RENDER)):
+        for ri in (unit[2],):
             for explicit in (False, True):
                 for second in (False, True):
                     viols = check_scale(nh, ri, explicit, second)
